@@ -44,6 +44,12 @@ def check_case(case, ctr):
                                   repro=case.py_ctx() + f'x = list(c.lattice)[{kw.get("concept")}]\n'
                                   'print(list(x.attributes()), x.minimal())\n'))
 
+    # a second lattice of the same table on which minimal() is asked FIRST
+    first_min = [c.minimal() for c in case.fresh_ctx().lattice] if case.variant == 'fresh' else None
+    other = list(case.fresh_ctx().lattice) if case.variant == 'fresh' else None
+    if other is not None:
+        for c in other:
+            c.minimal()
     for i, c in enumerate(al):
         extent, intent = ref.concepts[i]
         if extent:
@@ -59,6 +65,14 @@ def check_case(case, ctr):
         if got != exp:
             bad('attributes', exp, got, concept=i)
             continue
+        if other is not None and len(other) == len(al):
+            ctr['calls'] += 2
+            if list(other[i].attributes()) != exp or list(other[i].attributes()) != exp:
+                bad('attributes-after-minimal', exp, list(other[i].attributes()), concept=i)
+            if first_min[i] != (case.plab(intent) if i == ref.bottom else exp[0]):
+                bad('minimal-first', exp[0], first_min[i], concept=i)
+        if list(c.attributes()) != exp:
+            bad('attributes-repeatable', exp, list(c.attributes()), concept=i)
         mn = c.minimal()
         if i == ref.bottom:
             if mn != case.plab(intent):
